@@ -140,7 +140,7 @@ def is_ascii(s):
 
 # ------------------------------------------------------------------ stream 1: str / rrulestr round trip
 
-def eval_roundtrip(o, inp, issues, stats):
+def _eval_roundtrip(o, inp, issues, stats):
     """inp: {"start": dtjson, "kw": kwjson, "fwd": int}"""
     from dateutil import rrule as RR
     start, kw, fwd = j_dt(inp["start"]), j_kw(inp["kw"]), inp.get("fwd", 0)
@@ -148,7 +148,14 @@ def eval_roundtrip(o, inp, issues, stats):
     try:
         args = K.e_env(fwd, NOW) + K.e_optdt(start) + K.e_kw(kw)
         try:
-            r = RR.rrule(dtstart=start, **kw)
+            if inp.get("as_date"):
+                # date objects for start / until: the constructor turns them into midnight datetimes
+                ikw = dict(kw)
+                if ikw.get("until") is not None:
+                    ikw["until"] = ikw["until"].date()
+                r = RR.rrule(dtstart=start.date(), **ikw)
+            else:
+                r = RR.rrule(dtstart=start, **kw)
             ir = [1] + K.p_rule(r)
         except Exception as ex:
             r, ir = None, K.exc_code(ex)
@@ -245,7 +252,7 @@ def build_expected(exp, oj):
         return ex
 
 
-def eval_text(o, inp, issues, stats):
+def _eval_text(o, inp, issues, stats):
     """inp: {"stream", "text", "opts", optional "expect"}"""
     text, oj = inp["text"], inp["opts"]
     res, mo = run_impl_text(text, oj)
@@ -284,6 +291,26 @@ def eval_text(o, inp, issues, stats):
             issues.append(("malformed text raises %s, not ValueError" % cls, True,
                            {"stream": inp["stream"], "input": inp, "impl": ir, "model": mr}))
     return ir, mr
+
+
+def eval_roundtrip(o, inp, issues, stats):
+    """fail closed: an exception inside the evaluation of one case (e.g. an object the projection
+    cannot read) is itself a disagreement at that input"""
+    try:
+        return _eval_roundtrip(o, inp, issues, stats)
+    except Exception as ex:  # noqa
+        issues.append(("evaluation of the case failed: %s" % type(ex).__name__, False,
+                       {"stream": "roundtrip", "input": inp, "error": repr(ex)[:300]}))
+        return None
+
+
+def eval_text(o, inp, issues, stats):
+    try:
+        return _eval_text(o, inp, issues, stats)
+    except Exception as ex:  # noqa
+        issues.append(("evaluation of the case failed: %s" % type(ex).__name__, False,
+                       {"stream": inp.get("stream"), "input": inp, "error": repr(ex)[:300]}))
+        return (["ERR"], ["ERR"])
 
 
 # ------------------------------------------------------------------ generators of text cases
@@ -587,7 +614,18 @@ def eval_dates(o, R, tier, issues, stats):
 # ------------------------------------------------------------------ known findings
 
 def m_missing_freq(p):
-    return p.get("stream") in ("malformed", "regression") and p.get("impl") == [0, 2] and p.get("model") == [0, 2]
+    # TypeError from rrule() without freq.  When a date value leaves the modelled forms the model
+    # cannot confirm the class; then the text must not contain a FREQ part at all.
+    inp = p.get("input") or {}
+    return p.get("stream") in ("malformed", "regression") and p.get("impl") == [0, 2] and (
+        p.get("model") == [0, 2] or (p.get("model") == [0, 9] and "FREQ=" not in inp.get("text", "").upper()))
+
+
+def m_overflow(p):
+    # generic parser raises OverflowError on an overlong digit group (C14's territory)
+    inp = p.get("input") or {}
+    return p.get("stream") in ("malformed", "regression") and p.get("impl") == ["EXC", "OverflowError"] and \
+        p.get("model") == [0, 9] and re.search(r"\d{15,}", inp.get("text", "")) is not None
 
 
 def m_no_rrule(p):
@@ -611,7 +649,8 @@ def m_firstweekday(p):
 
 
 MATCHERS = {"c13_missing_freq_typeerror": m_missing_freq, "c13_no_rrule_indexerror": m_no_rrule,
-            "c13_wkst_mo_firstweekday": m_firstweekday, "c13_fold_inside_tzid": m_tzid_fold}
+            "c13_wkst_mo_firstweekday": m_firstweekday, "c13_fold_inside_tzid": m_tzid_fold,
+            "c13_date_overflowerror": m_overflow}
 
 
 # ------------------------------------------------------------------ main
@@ -645,6 +684,92 @@ def small_scope():
                         if wk is not None:
                             kw["wkst"] = wk
                         out.append({"start": dt_j(start), "kw": kw_j(kw), "fwd": 0})
+    return out
+
+
+def directed(o, issues, stats, bump):
+    """directed cases for branches the random streams reach rarely"""
+    # 0b. directed cases for branches the random streams reach rarely
+    for inp in [
+            {"start": [2000, 1, 31, 0, 0, 0, 0, 0], "kw": {"freq": 1, "until": [2000, 12, 31, 0, 0, 0, 0, 0]}, "fwd": 0, "as_date": True},
+            {"start": [1999, 12, 31, 0, 0, 0, 0, 0], "kw": {"freq": 0, "count": 3, "byeaster": 0}, "fwd": 0, "as_date": True},
+            {"start": [2000, 1, 1, 9, 0, 0, 0, 0], "kw": {"freq": 3, "count": 3, "until": [2000, 1, 10, 0, 0, 0, 0, 0]}, "fwd": 0},
+            {"start": [2000, 1, 1, 9, 0, 0, 0, 0], "kw": {"freq": 3, "count": 3, "bysetpos": 0}, "fwd": 0, "out_of_space": True},
+            {"start": [2000, 1, 1, 9, 0, 0, 0, 0], "kw": {"freq": 3, "count": 3, "bysetpos": 367}, "fwd": 0, "out_of_space": True},
+            {"start": [2000, 1, 1, 9, 0, 0, 0, 1], "kw": {"freq": 3, "until": [2000, 1, 10, 0, 0, 0, 0, 0]}, "fwd": 0}]:
+        bump("directed")
+        eval_roundtrip(o, inp, issues, stats)
+    for text, oj in [("FREQ=DAILY;UNTIL=20000101T000000Z", {}), ("FREQ=DAILY;UNTIL=20000101T000000", {}),
+                     ("DTSTART;TZID=UTC:20000101T000000Z\nRRULE:FREQ=DAILY;COUNT=1", {"tzids": 1}),
+                     ("EXDATE;TZID=America/New_York:20000101T000000Z", {"tzids": 2})]:
+        bump("directed")
+        eval_text(o, {"stream": "malformed", "text": text, "opts": oj}, issues, stats)
+    # tzids that is neither None, a callable nor a mapping: ValueError (implementation only)
+    from dateutil import rrule as _RR
+    try:
+        _RR.rrulestr("DTSTART;TZID=UTC:20000101T000000\nRRULE:FREQ=DAILY;COUNT=1", tzids=42)
+        issues.append(("tzids=42 accepted", True, {"stream": "malformed", "input": {"text": "tzids=42"}}))
+    except ValueError:
+        pass
+    except Exception as ex:  # noqa
+        issues.append(("tzids=42 raises %s, not ValueError" % type(ex).__name__, True,
+                       {"stream": "malformed", "input": {"text": "tzids=42"}}))
+
+
+def measure_coverage(o, texts):
+    """line coverage of the anchored functions under a scaled-down rerun of every stream"""
+    try:
+        import coverage
+        import inspect
+        from dateutil import rrule as RR
+    except Exception as ex:  # noqa
+        return {"error": repr(ex)}
+    path = inspect.getsourcefile(RR)
+    funcs = [RR.rrule.__init__, RR.rrule.__str__] + [
+        f for n, f in vars(RR._rrulestr).items() if callable(f) and (n.startswith("_handle_") or n.startswith("_parse_"))]
+    ranges = {}
+    for f in funcs:
+        try:
+            src, first = inspect.getsourcelines(f)
+        except Exception:  # noqa
+            continue
+        ranges[f.__qualname__] = (first + 1, first + len(src) - 1)      # body without the def line
+    cov = coverage.Coverage(include=[path], data_file=None)
+    issues, stats = [], new_stats()
+    K.SKIP_OCCURRENCES = True
+    cov.start()
+    try:
+        R = C.rng("C13/coverage")
+        directed(o, issues, stats, lambda *_a: None)
+        for inp in small_scope()[::7]:
+            eval_roundtrip(o, inp, issues, stats)
+        for _ in range(250):
+            tag = R.choice([0, 0, 1, 2])
+            start = K.gen_dt(R, tag)
+            eval_roundtrip(o, {"start": dt_j(start), "kw": kw_j(K.gen_kw(R, tag, start)), "fwd": 0}, issues, stats)
+        for _ in range(250):
+            eval_text(o, gen_spelling(R, o), issues, stats)
+        for _ in range(120):
+            inp = gen_set(R, o)
+            if inp is not None:
+                eval_text(o, inp, issues, stats)
+        for _ in range(500):
+            eval_text(o, gen_malformed(R, o, texts), issues, stats)
+    finally:
+        cov.stop()
+        K.SKIP_OCCURRENCES = False
+    _f, executable, _ex, missing, _ms = cov.analysis2(path)
+    out = {"file": os.path.relpath(path, C.REPO), "functions": {}}
+    tot = hit = 0
+    for name, (a, b) in sorted(ranges.items()):
+        ex = [l for l in executable if a <= l <= b]
+        mi = [l for l in missing if a <= l <= b]
+        if name.endswith("_handle_int") or name.endswith("_handle_int_list") or len(ex) > 3:
+            out["functions"][name] = {"executable": len(ex), "missed_lines": mi}
+        tot += len(ex)
+        hit += len(ex) - len(mi)
+    out["anchored_executable_lines"] = tot
+    out["anchored_lines_hit"] = hit
     return out
 
 
@@ -705,6 +830,14 @@ def main():
     o = C.Oracle("rstr")
     issues, stats = [], new_stats()
     hist = {}
+    samples = []
+
+    def sample(inp, res):
+        st = inp.get("stream")
+        if sum(1 for x in samples if x["stream"] == st) < 3:
+            ir, mr = res
+            samples.append({"stream": st, "text": inp["text"], "opts": inp["opts"],
+                            "impl": ir[:24], "model": mr[:24]})
 
     def bump(k, n=1):
         hist[k] = hist.get(k, 0) + n
@@ -730,6 +863,7 @@ def main():
         if os.environ.get("VERIF_C13_DEBUG"):
             print("DEBUG lap %s %.1fs" % (name, time.time() - tt))
         tt = time.time()
+    directed(o, issues, stats, bump)
     # 1. primitives and compact dates
     eval_prims(o, prim_cases(C.rng("C13/prims"), tier), issues, stats)
     eval_dates(o, C.rng("C13/dates"), tier, issues, stats)
@@ -743,7 +877,7 @@ def main():
         if t:
             texts.append(t)
     R = C.rng("C13/roundtrip")
-    n = 2500 if tier == "quick" else 60000
+    n = 2500 if tier == "quick" else 25000
     for _ in range(n):
         tag = R.choice([0, 0, 0, 0, 0, 1, 2, 3])
         start = K.gen_dt(R, tag, us=R.random() < 0.1)
@@ -775,7 +909,7 @@ def main():
     lap("roundtrip")
     # 3. spellings x options, 4. sets, 5. malformed
     R = C.rng("C13/spelling")
-    for _ in range(2000 if tier == "quick" else 50000):
+    for _ in range(2000 if tier == "quick" else 20000):
         inp = gen_spelling(R, o)
         bump("spelling")
         bump("spelling_inline_%d" % inp["choice"]["inline"])
@@ -783,23 +917,35 @@ def main():
             if inp["opts"].get(k):
                 bump("opt_" + k)
         bump("opt_tzids_%d" % inp["opts"]["tzids"])
-        eval_text(o, inp, issues, stats)
+        ch = inp["choice"]
+        for k in ("plus", "wdname", "dshort", "prefix"):
+            if ch[k]:
+                bump("choice_" + k)
+        if ch["folds"]:
+            bump("choice_folded")
+        if ch["case"]:
+            bump("choice_lowercase")
+        if ch["perm"] != sorted(ch["perm"]):
+            bump("choice_permuted")
+        sample(inp, eval_text(o, inp, issues, stats))
     lap("spelling")
     R = C.rng("C13/sets")
-    for _ in range(800 if tier == "quick" else 20000):
+    for _ in range(800 if tier == "quick" else 8000):
         inp = gen_set(R, o)
         if inp is None:
             continue
         bump("set" if inp["expect"]["kind"] == "set" else "set_stream_single_rule")
-        eval_text(o, inp, issues, stats)
+        sample(inp, eval_text(o, inp, issues, stats))
     lap("sets")
     R = C.rng("C13/malformed")
     for _ in range(2500 if tier == "quick" else 60000):
         inp = gen_malformed(R, o, texts)
         bump("malformed")
-        eval_text(o, inp, issues, stats)
-    o.close()
+        sample(inp, eval_text(o, inp, issues, stats))
     lap("malformed")
+    covinfo = measure_coverage(o, texts)
+    lap("coverage")
+    o.close()
 
     # ---- verdicts
     n_model = n_spec = 0
@@ -852,13 +998,14 @@ def main():
         "texts_outside_modelled_fragment": stats["unmodelled"],
         "model_vs_impl_disagreements": n_model,
         "property_violations_on_impl": n_spec,
-        "samples": [{"text": t} for t in texts[:8]],
+        "samples": [{"stream": "roundtrip", "str(rule)": t} for t in texts[:4]] + samples,
         "partial_theorems": [t for t in props["theorems"] if t.endswith("_partial")],
         "differential_only": ["tzinfos option", "tzids=None (tz.gettz) beyond the names used",
                               "date values outside YYYYMMDD[THHMMSS[Z]] (generic parser)",
                               "occurrence equality of equal rule states (C01's iteration)",
                               "non-ASCII text"],
         "known_findings_hit": verdict.known_hits,
+        "anchored_line_coverage": covinfo,
     }
     C.write_evidence(CID, tier, t0, props, cov,
                      ["parser.parse modelled only on the compact forms YYYYMMDD[THHMMSS[Z]]",
